@@ -3,7 +3,7 @@
 //! the new one, commit marks uncommitted entries <= index and only then moves the commit index,
 //! logs(from) returns the newest (count - from) entries, where a limit of 0 means "everything".
 
-use crate::raft::{Log, Storage};
+use super::raft::{Log, Storage};
 use crate::server_error::ServerResult;
 
 #[derive(Clone, Debug, PartialEq)]
